@@ -34,6 +34,10 @@ ASSUMPTIONS = ['a hold added after P entered the queue is a statistic only '
 FOREIGN = (
     ('user/joe/thing', None), ('hotfix/urgent-thing', None),
     ('master-copy', None), ('fix_something', None), ('user/x', None),
+    # names of the robot's own namespaces and release branches proposed by
+    # a human: not pull requests Bert-E handles either
+    ('w/10.0/feature/TEST-9-x', None), ('release/5.1', None),
+    ('w/5.1/bugfix/TEST-8-y', None),
     (None, 'feature/integration-target'), (None, 'release/5.1'),
     (None, 'user/joe/base'), (None, 'trunk'),
 )
